@@ -267,3 +267,19 @@ def native_supported_kinds(classes):
                 return supported_kind
 
             setattr(cls, "supported_kind", staticmethod(mk(fn)))
+        # meta engines: `_supported_kind(engine_class)` (concrete class in, constant kind out) likewise
+        for cls in classes:
+            for base in cls.__mro__:
+                if "_supported_kind" in vars(base) and base not in _native_done:
+                    _native_done.add(base)
+                    orig = vars(base)["_supported_kind"]
+                    fn = orig.__func__ if isinstance(orig, staticmethod) else orig
+
+                    def mk1(fn):
+                        def _supported_kind(engine):
+                            with NoTracing():
+                                return fn(engine)
+                        _supported_kind.__wrapped__ = fn
+                        return _supported_kind
+
+                    setattr(base, "_supported_kind", staticmethod(mk1(fn)))
